@@ -1883,6 +1883,10 @@ def t_c14_morph_grid(acc, part, nparts):
                 for hi in (2.0, 2.75):
                     case = {"k": "morph", "src": src, "tgt": tgt, "filter": filt, "hi": hi}
                     acc.run(ev_morph, case)
+                # a source tier whose span does not start at 0 (e.g. an excerpt cropped without rebasing)
+                if src and min(e[0] for e in src) >= 0.5:
+                    case = {"k": "morph", "src": src, "tgt": tgt, "filter": filt, "hi": 2.75, "lo": 0.5}
+                    acc.run(ev_morph, case)
 
 
 def t_c14_morph_rnd(acc, seed, count):
@@ -1897,6 +1901,8 @@ def t_c14_morph_rnd(acc, seed, count):
                 n = len(tgt) if rng.random() < 0.9 else n
         filt = rng.choice([None, ["a"], ["a", "c"], []])
         case = {"k": "morph", "src": src, "tgt": tgt, "filter": filt, "hi": rng.choice([None, 10.5]), "tol": 1e-9}
+        if src and rng.random() < 0.4:
+            case["lo"] = round(rng.uniform(0.0, min(e[0] for e in src)), 3)
         acc.run(ev_morph, case)
 
 
